@@ -232,6 +232,19 @@ func (c *Ctx) SyncOption(prop string) {
 			} else {
 				c.R.OK(rule, Fn(fn)+":InMemory"+ord, c.Pos(ci), "effective InMemory = false ("+mem.Src+")")
 			}
+			// further options that decide whether acknowledged records survive: required effective value false
+			for _, o := range []struct{ field, why string }{
+				{"Truncate", "on opening, badger cuts the value log at the first damaged record and silently drops every later one, acknowledged watermarks included, instead of refusing to start"},
+				{"BypassLockGuard", "a second process may open the same directory and the two overwrite each other's records"},
+				{"ReadOnly", "no watermark can be recorded"},
+			} {
+				v := c.EffectiveField(fn, cell, o.field, ci.(ssa.Instruction))
+				if v.Known && v.Val.Kind() == constant.Bool && !constant.BoolVal(v.Val) {
+					c.R.OK(rule, Fn(fn)+":"+o.field+ord, c.Pos(ci), "effective "+o.field+" = false ("+v.Src+")")
+				} else {
+					c.R.Fail(rule, Fn(fn)+":"+o.field+ord, c.Pos(ci), "the slashing-protection database is opened with "+o.field+" = "+v.String()+": "+o.why, "effective "+o.field+" == false at badger.Open", nil)
+				}
+			}
 			// directory: DefaultOptions(path parameter)
 			okDir := false
 			for _, r := range *cell.Referrers() {
